@@ -81,11 +81,12 @@ Definition mps_error (fmt : list Z) (args : list farg) : merr :=
       else MOk s
   end.
 
-(* the repaired loop (fixes/C09_mps_error_va_list_reuse.patch) restarts the list *)
+(* mps_error as it is in /repo now (commit cee031a): every attempt works on a va_copy
+   and the loop condition is ">= buffer_size": the text always arrives complete. *)
 Definition mps_error_fixed (fmt : list Z) (args : list farg) : merr :=
   match interp fmt args [] 0 with
   | FWild => MWild
-  | FOk s _ => if Z.of_nat (List.length s) =? 32 then MOk (firstn 31 s) else MOk s
+  | FOk s _ => MOk s
   end.
 
 (* parser.c mps_raise_parsing_error (token <> NULL):
@@ -104,7 +105,7 @@ Fixpoint escape_percent (t : list Z) : list Z :=
   | c :: r => if c =? 37 then 37 :: 37 :: escape_percent r else c :: escape_percent r
   end.
 Definition raise_parsing_error_fixed (lineno : Z) (token message : list Z) : merr :=
-  mps_error (perr_prefix lineno ++ escape_percent token) [AStr message].
+  mps_error_fixed (perr_prefix lineno ++ escape_percent token) [AStr message].
 
 (* ------------------------------------------------------------------ *)
 (* mps_is_option (case-insensitive, leading blanks skipped, trailing blanks allowed) *)
